@@ -113,6 +113,8 @@ class Scheduler:
         self.used = 0
         self.pending: List[tuple] = []  # (future, outcome thunk, label)
         self.order: List[str] = []
+        self.settled = 0
+        self.before_settle: Optional[Callable[["Scheduler"], None]] = None  # stop-point hook
 
     def future(self, value=None, exc: Optional[BaseException] = None, label: str = "") -> asyncio.Future:
         f = self.loop.create_future()
@@ -143,6 +145,9 @@ class Scheduler:
         return n - 1
 
     def settle_one(self) -> bool:
+        if self.before_settle is not None:
+            self.before_settle(self)
+            self.loop.run_until_idle()
         live = [p for p in self.pending if not p[0].done()]
         self.pending = live
         if not live:
@@ -151,6 +156,7 @@ class Scheduler:
         f, value, exc, label = live[k]
         self.pending.remove(live[k])
         self.order.append(label)
+        self.settled += 1
         if exc is not None:
             f.set_exception(exc)
         else:
@@ -170,6 +176,9 @@ class Scheduler:
             if task.done():
                 break
             if not self.settle_one():
+                self.loop.run_until_idle()  # (a stop-point hook may just have released it)
+                if task.done():
+                    break
                 raise Hang("awaited result can never complete: loop idle, nothing pending")
         else:
             raise Hang("round budget exceeded")
